@@ -2,6 +2,9 @@ package main
 
 func dispatchMore(mode string, lines []string) bool {
 	switch mode {
+	case "read":
+		runRead(lines)
+		return true
 	case "lex":
 		runLex(lines)
 		return true
